@@ -40,7 +40,7 @@ MANIFEST = dict(
          "solves on ONE solver object with setters in between must satisfy the same predicates and info()/num_iterations()/"
          "eigenvalues() must describe the last solve (keys <mode>:reuse:<predicate>).")
 
-SYMM_FAMS = ["dd", "dd", "dd", "ddweak", "ddflat", "rand", "neardeg", "block", "exactdeg", "intruder"]
+SYMM_FAMS = ["dd", "dd", "dd", "ddweak", "ddsparse", "ddflat", "rand", "neardeg", "block", "exactdeg", "intruder"]
 HAM_FAMS = ["bse", "bse", "bsehard"]
 PROMISED_KEYS = ("promised-success", "promised-lowest")
 
@@ -400,6 +400,21 @@ def run(ctx):
             forced[len(chosen)] = "intruder"
             chosen.append(v)
     ctx.extra["intruder_solves"] = len(forced)
+    # dedicated batches for the SPARSE diagonally dominant families (start states mutually uncoupled: in
+    # iteration 0 every Ritz vector is a unit vector and D_jj - lambda = 0 exactly): every correction x update x
+    # tolerance, any limit kind / initial guess / neigen
+    sstrata = collections.defaultdict(list)
+    for v in vectors:
+        if v["mode"] == "SYMM" and v["itermax"] >= 50 and 8 <= v["N"] <= (60 if quick else 400):
+            sstrata[(v["corr"], v["upd"], v["tol"])].append(v)
+    for fam, kq, kt in (("ddsparse", 3, 25), ("ddshared", 1, 10)):
+        n0 = len(forced)
+        for key in sorted(sstrata):
+            ws = [1.0 if v["N"] <= 100 else 0.4 for v in sstrata[key]]
+            for v in rnd.choices(sstrata[key], weights=ws, k=kq if quick else kt):
+                forced[len(chosen)] = fam
+                chosen.append(v)
+        ctx.extra[fam + "_solves"] = len(forced) - n0
 
     # ---- 3. run the real solver ----------------------------------------------------------------------------------------
     items, meta = [], {}
@@ -446,7 +461,7 @@ def run(ctx):
             worst["normq_success"] = max(worst["normq_success"], max(e["normq"]))
             if b["mode"] == "SYMM":
                 worst["orthq_success_symm"] = max(worst["orthq_success_symm"], e["orthq"])
-            if b["fam"] in ("dd", "ddweak", "ddflat", "bse"):
+            if b["fam"] in ("dd", "ddweak", "ddsparse", "ddshared", "ddflat", "bse"):
                 worst["lowq_promised"] = max(worst["lowq_promised"], max(e["lowq"]))
             elif e["denseok"] and max(e["lowq"]) > 1010:
                 stats["success_with_non_lowest_roots:%s (admitted, not asserted)" % b["fam"]] += 1
